@@ -20,7 +20,14 @@ RENDERINGS = [
     ('a\n\nb', ['a\n', '\n', 'b']),
     ('xy', ['x', '', 'y']),
     ('a\r\nb', ['a\r\nb']),
+    ('x\ny', ['x', ('c', '\n'), 'y']),          # the line break arrives through fmt::Write::write_char
 ]
+
+
+def enc_piece(c):
+    """script encoding of a rendering piece: text chunk, or `|c|X` for a single char handed to write_char"""
+    if isinstance(c, (list, tuple)): return '|c|' + c[1].replace('\n', '\\n').replace('\r', '\\r')
+    return c.replace('\n', '\\n').replace('\r', '\\r')
 
 
 def reference(shape, texts, x):
@@ -213,7 +220,7 @@ def confirm(prop, v):
         n0 = len(lines)
         for n, t in texts.items():
             chunks = a.get('chunks', [[x] for x in a['texts']])[n - 1]
-            lines.append('render %d %s' % (n - 1, '|~|'.join(c.replace('\n', '\\n').replace('\r', '\\r') for c in chunks)))
+            lines.append('render %d %s' % (n - 1, '|~|'.join(enc_piece(c) for c in chunks)))
         lines.append('pretty %s s%d' % (mode, a['x']))
         res = replay.run_script(lines, profile)
         d = res.get(n0 - 1)
